@@ -845,6 +845,11 @@ class MemorizedFunc(Logger):
         """
         call_id = (self.func_id, self._get_args_id(*args, **kwargs))
 
+        # As for a cached call, make sure that the function code stored
+        # alongside the results is the current one (and wipe results of a
+        # previous version of the code) before persisting a new result.
+        self._check_previous_func_code(stacklevel=3)
+
         # Return the output and the metadata
         return self._call(call_id, args, kwargs)
 
